@@ -388,7 +388,7 @@ def work(shard, seed, tier):
                  "timer kind%s" % (4 if tier == "quick" else 5, len(ALPHABET),
                                    "" if tier == "quick" else " (4 for StoreTimer on a real Store)"))
         return acc
-    n = (400 if kind == "store-real" else 1500) if tier == "quick" else (4000 if kind == "store-real" else 10000)
+    n = (400 if kind == "store-real" else 1000) if tier == "quick" else (4000 if kind == "store-real" else 10000)
     idx = KINDS.index(kind) * 100 + shard["i"]
     campaign(acc, case_strategy(kind), outcome, n, seed * 1000 + idx, budget=Budget(100 if tier == "quick" else 1500),
              max_sigs=6, shrink_examples=300)
